@@ -9,8 +9,8 @@
 
    role_table: which classes may execute a function.  Functions that are not listed may
    run in every class (most conservative).  The table is validated against the generated
-   call graph by `roles_consistent` (every callee admits at least the classes of each of
-   its callers; escaping closures may run anywhere; exported functions admit TCaller).
+   call graph by `roles_consistent` (every callee allows at least the classes of each of
+   its callers; escaping closures may run anywhere; exported functions allow TCaller).
 
    policy_table: the guard of each field, read off the code:
      Writer.root / rootPersisted / persistedCallbacks   rootLock (writer.go:43-49;
